@@ -12,7 +12,7 @@ def generate(ctx, sizes, quick):
     rng = random.Random(ctx.seed)
     allr = []
     for si, n in enumerate(sizes, start=1):
-        restarts = "{0, %d}" % (n // 2) if quick else "0..%d" % (n - 1)
+        restarts = "{0, %d}" % (n // 2) if quick else "{%s}" % ", ".join(str(i) for i in range(n))
         dups = "{0}" if quick else "{0, 1, %d}" % n
         r = ctx.tlc_gen("IndexOOOGen", "IndexOOOGen.cfg", overrides={"Shape": si, "N": n, "Restarts": restarts, "Dups": dups}, tag="RPL")
         cap = 260 if quick else 6000
